@@ -17,6 +17,7 @@ import (
 
 	"github.com/Vedant9500/WTF/internal/cache"
 	"github.com/Vedant9500/WTF/internal/database"
+	"github.com/Vedant9500/WTF/internal/metrics"
 )
 
 // C11: concurrent searches on one database are race-free and answer as if alone.
@@ -341,15 +342,16 @@ func c11LockTable(root string) ([]c11Access, error) {
 // ---------------------------------------------------------------- (b) stress
 
 type c11Stress struct {
-	Goroutines  int   `json:"goroutines"`
-	Calls       int64 `json:"calls"`
-	Mismatches  int64 `json:"mismatches"`
-	FirstBad    string `json:"first_bad,omitempty"`
-	SearchesRec int64 `json:"searches_recorded"`
-	CounterSum  int64 `json:"counter_sum"`
-	Hits        int64 `json:"hits"`
-	Misses      int64 `json:"misses"`
-	HitMissSum  int64 `json:"hit_miss_sum"`
+	Goroutines      int    `json:"goroutines"`
+	Calls           int64  `json:"calls"`
+	Mismatches      int64  `json:"mismatches"`
+	FirstBad        string `json:"first_bad,omitempty"`
+	SearchesRec     int64  `json:"searches_recorded"`
+	CounterSum      int64  `json:"counter_sum"`
+	Hits            int64  `json:"hits"`
+	Misses          int64  `json:"misses"`
+	HitMissSum      int64  `json:"hit_miss_sum"`
+	HitMissExpected int64  `json:"hit_miss_expected"`
 }
 
 func c11RunStress(r *rand.Rand, dir string) c11Stress {
@@ -362,8 +364,8 @@ func c11RunStress(r *rand.Rand, dir string) c11Stress {
 		return c11Stress{}
 	}
 	type req struct {
-		q string
-		o database.SearchOptions
+		q    string
+		o    database.SearchOptions
 		want []eRes
 	}
 	var reqs []req
@@ -421,6 +423,48 @@ func c11RunStress(r *rand.Rand, dir string) c11Stress {
 	if v := firstBad.Load(); v != nil {
 		st.FirstBad = v.(string)
 	}
+	// first use: goroutines released together on a FRESH collector / monitored database, many rounds
+	// (registration of a metric identity races with its first increments)
+	for round := 0; round < 300; round++ {
+		col := metrics.NewCollector()
+		fresh := database.NewMonitoredDatabase(db)
+		start := make(chan struct{})
+		var wg2 sync.WaitGroup
+		const k = 8
+		for g := 0; g < k; g++ {
+			wg2.Add(1)
+			go func(g int) {
+				defer wg2.Done()
+				<-start
+				col.Counter("first_use_total", map[string]string{"kind": "x"}).Inc()
+				col.Histogram("first_use_seconds", nil).Observe(1)
+				if round%4 == 0 {
+					rq := reqs[(round+g)%len(reqs)]
+					fresh.SearchWithOptionsAndMonitoring(rq.q, rq.o)
+				}
+			}(g)
+		}
+		close(start)
+		wg2.Wait()
+		st.SearchesRec += 2 * k
+		st.CounterSum += col.Counter("first_use_total", map[string]string{"kind": "x"}).Value()
+		st.CounterSum += col.Histogram("first_use_seconds", nil).Count()
+		if round%4 == 0 {
+			st.SearchesRec += k
+			st.HitMissExpected += k
+			for _, m := range fresh.GetPerformanceReport().ApplicationMetrics {
+				switch m.Name {
+				case "searches_total":
+					st.CounterSum += int64(m.Value)
+				case "cache_hits_total":
+					st.Hits += int64(m.Value)
+				case "cache_misses_total":
+					st.Misses += int64(m.Value)
+				}
+			}
+		}
+	}
+	st.HitMissExpected += monitored.Load()
 	rep := mdb.GetPerformanceReport()
 	for _, m := range rep.ApplicationMetrics {
 		switch m.Name {
@@ -439,15 +483,15 @@ func c11RunStress(r *rand.Rand, dir string) c11Stress {
 // ---------------------------------------------------------------- (c) LRU histories
 
 type c11Event struct {
-	Thread int    `json:"thread"`
-	Op     string `json:"op"`
-	Key    int    `json:"k"`
-	Val    int    `json:"v"`
-	Inv    int64  `json:"inv"`
-	Ret    int64  `json:"ret"`
-	Found  bool   `json:"found"`
-	Res    int64  `json:"res"`
-	B      bool   `json:"b"`
+	Thread int      `json:"thread"`
+	Op     string   `json:"op"`
+	Key    int      `json:"k"`
+	Val    int      `json:"v"`
+	Inv    int64    `json:"inv"`
+	Ret    int64    `json:"ret"`
+	Found  bool     `json:"found"`
+	Res    int64    `json:"res"`
+	B      bool     `json:"b"`
 	Stats  [4]int64 `json:"stats"`
 }
 
